@@ -51,6 +51,14 @@ def run_one(backend, path, timeout):
     return "unknown", (out + p.stderr)[-400:], dt
 
 
+def write_query(query, name="q"):
+    safe = "".join(ch if ch.isalnum() else "_" for ch in name)[:60]
+    path = os.path.join(workdir(), f"{safe}-{abs(hash(query)) % 10**10}-{os.getpid()}.smt2")
+    with open(path, "w") as f:
+        f.write(query)
+    return path
+
+
 def run_parallel(query, name="q", timeout=45, order=None):
     """all solvers of the portfolio at once; the first definite answer wins (the others are left to their time limit)"""
     safe = "".join(ch if ch.isalnum() else "_" for ch in name)[:60]
